@@ -124,7 +124,11 @@ def h_chain(ctx, fname, nmax, params=None, array=False, inplace=False, order='as
         for k in range(nmax):
             ctx.eq(vals[k + 1], diff.ddx(S.lift(vals[k]), 'x'), 'order%d==d/dx order%d' % (k + 1, k))
     else:
-        h = 1e-3
+        # finite-difference safety net: step proportional to the distance from the edge of the
+        # domain (the derivatives blow up there), so that the truncation error stays below float_tol
+        dom = DOMAINS[fname]
+        dist = {'pos': abs(x), 'nonzero': abs(x), 'gtm1': abs(x + 1), 'abs1': 1 - abs(x), 'gt1': abs(x - 1)}.get(dom, 1.0)
+        h = 1e-3 * min(1.0, dist)
         for k in range(nmax):
             g = lambda t: float(call(algopy, fname, t, k, params))
             fd = (-g(x + 2 * h) + 8 * g(x + h) - 8 * g(x - h) + g(x - 2 * h)) / (12 * h)
